@@ -98,6 +98,31 @@ def build(bins=True, harness=True):
     log(f"[build] {time.time() - t0:.1f}s")
 
 
+def build_reference():
+    """The frozen copy of the pinned sources (reference/src.tar, the hook commit without any
+    later change) built into a second copy of the in-process driver."""
+    ref_src = TARGET / "reference" / "src"
+    binp = TARGET / "harness-ref" / "debug" / "rfv-run-ref"
+    stamp = TARGET / "reference" / ".stamp"
+    tar = VERIF / "reference" / "src.tar"
+    want = hashlib.sha1(tar.read_bytes()).hexdigest()
+    with open(TARGET / ".build.lock", "w") as lk:
+        fcntl.flock(lk, fcntl.LOCK_EX)
+        if not (stamp.exists() and stamp.read_text() == want and binp.exists()):
+            shutil.rmtree(TARGET / "reference", ignore_errors=True)
+            ref_src.mkdir(parents=True)
+            subprocess.run(["tar", "-xf", str(tar), "-C", str(ref_src)], check=True)
+            env = dict(os.environ)
+            env["CARGO_NET_OFFLINE"] = "true"
+            env.pop("RUSTFLAGS", None)
+            r = subprocess.run(["cargo", "build", "--offline", "--bins"], cwd=VERIF / "harness-ref",
+                               env=env, capture_output=True, text=True)
+            if r.returncode != 0:
+                raise ToolError("reference build failed:\n" + r.stderr[-4000:])
+            stamp.write_text(want)
+    return str(binp)
+
+
 def bin_path(name):
     p = TARGET / "repo" / "debug" / name
     if not p.exists():
@@ -236,8 +261,12 @@ def printed_json(res, tag=None):
 
 def known_findings(prop):
     out = []
-    if KNOWN.exists():
-        for line in KNOWN.read_text().splitlines():
+    lines = []
+    for kf in [KNOWN] + sorted(VERIF.glob("known-findings-*.jsonl")):
+        if kf.exists():
+            lines += kf.read_text().splitlines()
+    if lines:
+        for line in lines:
             line = line.strip()
             if not line or line.startswith("#") or line.startswith("fixed:"):
                 continue
